@@ -196,3 +196,7 @@ Example vertices_subset_ex :
   let pts := [(0,0);(1,0);(2,0);(0,1);(2,1);(0,2);(1,2);(2,2)] in
   (forall q, In q pts -> 0 <= fst q) /\ hull_label 2 pts 0 = [(0,0);(0,2);(2,2);(2,0)].
 Proof. split; [cbn; intros q H; repeat (destruct H as [H|H]; [subst q; cbn; lia|]); contradiction | vm_compute; reflexivity]. Qed.
+
+Example chain_ok_ex : chain_ok [(2,2);(0,2);(0,0)] /\ prune [(2,2);(0,2);(0,0)] (1,1) = [(2,2);(0,2);(0,0)]
+                      /\ prune [(0,2);(0,1);(0,0)] (0,3) = [(0,0)].
+Proof. vm_compute. repeat split; reflexivity. Qed.
